@@ -11,6 +11,7 @@ def lib_part(run, fails, stats):
         c = r.case
         if r.learned is None:
             continue
+        K.history_oracles(r, fails, stats)
         counts = {}
         for ctx, s, k in c.freq:
             counts[(ctx, s)] = k
